@@ -75,7 +75,11 @@ fn secrets(cfg: &Cfg, seeded: bool) -> Secrets {
             names.push(format!("value[{}] as hexadecimal text", j));
             // a satisfied promise at the first position (public data; exercises the promise paths of prover and verifier)
             if j == 0 {
-                wit.promises[0] = Some(wit.values[0] / 2);
+                // (a third, so that value - promise is not the public promise itself)
+                wit.promises[0] = Some(wit.values[0] / 3);
+                // the value the prover actually decomposes into bits: as secret as the value itself
+                patterns.push((wit.values[0] - wit.values[0] / 3).to_le_bytes().to_vec());
+                names.push("value[0] - promise[0]".to_string());
             }
         }
     }
